@@ -8,9 +8,9 @@ RULE = ("requests: every generator (Xoshiro256, SplitMix64, Wyrand, ChaCha8/12/2
         "non-trivial = length > 0; distinct = distinct request line")
 ASSUMPTIONS = ["writes are observed through a canary-framed arena (64 bytes each side) and two backgrounds; thorough runs repeat a subset under Miri (supporting evidence only)"]
 
-ELEMS = {"u8": (1, 1), "u16": (2, 2), "u32": (4, 4), "u64": (8, 8), "u128": (16, 16), "a3u8": (3, 1), "a5u32": (20, 4)}
-RB = ["rb0", "rb1", "rb2", "rb3", "rb4", "rb4u32", "rb4f32", "rb4u16x2", "rb8", "rb8a", "rb8f64", "rb13", "rb16", "rb20", "rb32", "rb300"]
-RBLEN = {"rb0": 0, "rb1": 1, "rb2": 2, "rb3": 3, "rb4": 4, "rb4u32": 4, "rb4f32": 4, "rb4u16x2": 4, "rb8": 8, "rb8a": 8, "rb8f64": 8, "rb13": 13, "rb16": 16, "rb20": 20, "rb32": 32, "rb300": 300}
+ELEMS = {"u8": (1, 1), "u16": (2, 2), "u32": (4, 4), "u64": (8, 8), "u128": (16, 16), "a3u8": (3, 1), "a5u32": (20, 4), "z0": (0, 1), "unit": (0, 1)}
+RB = ["rb0", "rbunit", "rb1", "rb2", "rb3", "rb4", "rb4u32", "rb4f32", "rb4u16x2", "rb8", "rb8a", "rb8f64", "rb13", "rb16", "rb20", "rb32", "rb300"]
+RBLEN = {"rb0": 0, "rbunit": 0, "rb1": 1, "rb2": 2, "rb3": 3, "rb4": 4, "rb4u32": 4, "rb4f32": 4, "rb4u16x2": 4, "rb8": 8, "rb8a": 8, "rb8f64": 8, "rb13": 13, "rb16": 16, "rb20": 20, "rb32": 32, "rb300": 300}
 GENS = ["xoshiro", "splitmix", "wyrand", "chacha8", "chacha12", "chacha20", "mock", "system"]
 
 
@@ -41,7 +41,7 @@ def generate(r, tier, build):
         elem = "u8" if api in ("read", "read_exact") else r.choice(list(ELEMS))
         esize, align = ELEMS[elem]
         nbytes = length(r)
-        count = nbytes // esize if elem != "u8" else nbytes
+        count = (nbytes // esize if esize else r.choice([1, 3, 17])) if elem != "u8" else nbytes
         off = r.below(16) // align * align
         reqs.append("fillb gen=%s %s api=%s elem=%s off=%d count=%d pre=%s" % (gen, src, api, elem, off, count, ",".join(pre)))
     return reqs
@@ -69,7 +69,7 @@ def corpus(build):
 
 
 def classify(req, model):
-    if "count=0" in req or "elem=rb0" in req:
+    if "count=0" in req or "elem=rb0" in req or "elem=rbunit" in req or "elem=z0" in req or "elem=unit" in req:
         return None
     return req.split()[1] + "/" + [t for t in req.split() if t.startswith("api=")][0]
 
@@ -105,7 +105,7 @@ def extra(binary, build, tier, rng):
         off = rng.below(16)
         api = rng.choice(["fill_bytes", "read", "read_exact", "fill_bytes_uninit", "random_bytes"])
         if api == "random_bytes":
-            shape = rng.choice([x for x in RB if x != "rb0"])
+            shape = rng.choice(RB)
             nbytes, off = RBLEN[shape], shape
         cases.append((gen, seed, pre, nbytes, off, api))
     # fills of 64 KiB and more at every alignment class (implementation only: the list-based model driver is too slow for them)
